@@ -665,7 +665,16 @@ func feedAggs(target map[string]aggregator.AggregatorFunction, specs []aggSpec, 
 			continue
 		}
 		val, ok := lookupFieldValue(data, spec.inputField)
-		if !ok || val == nil {
+		if !ok {
+			continue
+		}
+		if val == nil {
+			// An explicit NULL is skipped by every aggregate except
+			// FIRST_VALUE/LAST_VALUE, which report the NULL of the first/last
+			// row (same rule as GroupAggregator.Add).
+			if spec.aggType == aggregator.FirstValue || spec.aggType == aggregator.LastValue {
+				agg.Add(nil)
+			}
 			continue
 		}
 		agg.Add(toAggregateValue(val))
